@@ -4,6 +4,7 @@ package main
 
 import (
 	"fmt"
+	"strconv"
 	"strings"
 
 	"rare/pkg/aggregation"
@@ -102,6 +103,79 @@ func c13RunAxes(f []string) string {
 		return "ok ."
 	}
 	return "ok " + strings.Join(out, "/")
+}
+
+// topn <name> <keys> <values> <n> <dl>: MatchCounter.ItemsSortedBy(n, sorter) through the real counter (map order), three
+// rounds with fresh counters and sorters; the model answers the first n rows of the specified order.
+func c13RunTopN(f []string) (ans string) {
+	name := string(UnHex(f[1]))
+	keys := UnHexListS(f[2])
+	vals := c13Values(f[3], len(keys))
+	n, _ := strconv.Atoi(f[4])
+	if _, e := c13Build(name); e != "" {
+		return e
+	}
+	defer func() {
+		if r := recover(); r != nil {
+			ans = "panic"
+		}
+	}()
+	first := ""
+	for round := 0; round < 3; round++ {
+		counter := aggregation.NewCounter()
+		for i := range keys {
+			j := (i + round) % len(keys)
+			counter.SampleValue(keys[j], vals[j])
+		}
+		s, _ := c13Build(name)
+		var got []string
+		for _, p := range counter.ItemsSortedBy(n, s) {
+			got = append(got, p.Name)
+		}
+		h := HexListS(got)
+		if round == 0 {
+			first = h
+		} else if h != first {
+			return "ok-unstable " + first + " " + h
+		}
+	}
+	return "ok " + first
+}
+
+func c13TopNCases(r *Rand, n int) []string {
+	var out []string
+	for i := 0; i < n; i++ {
+		class := Pick(r, []int{0, 0, 1, 2, 3, 4, 6, 8, 10, 11})
+		size := r.Range(0, 9)
+		if r.Chance(1, 10) {
+			size = r.Range(10, 30)
+		}
+		var ks []string
+		switch class {
+		case 8:
+			ks = c13ZonePool(r, size)
+		case 10:
+			ks = c13NumTiePool(r, size)
+		case 11:
+			ks = c13CtxTiePool(r, size)
+		default:
+			ks = c13KeySet(r, class, size)
+		}
+		set := c13MakeSet(r, ks)
+		if r.Chance(1, 3) {
+			set.values = c13TieValues(r, len(ks))
+		}
+		name := c13SortName(r)
+		if r.Chance(1, 3) {
+			name = "value" + Pick(r, c13Mods)
+		}
+		cnt := Pick(r, []int{0, 1, 2, 3, len(ks) - 1, len(ks), len(ks) + 1, 20, r.Intn(len(ks) + 2)})
+		if r.Chance(1, 25) {
+			cnt = Pick(r, []int{-1, -5})
+		}
+		out = append(out, set.dline("topn", name, strconv.Itoa(cnt)))
+	}
+	return out
 }
 
 // ---------------------------------------------------------------- generator
@@ -224,6 +298,13 @@ func c13AxesCorpus() []string {
 	}
 	out = append(out, line("axes", "date", "date", d1, d2, "0,1,2:0,1,2"), line("axes", "date", "date", d2, d1, "2,1,0:1,0,2/0,1,2:0,1,2"))
 	out = append(out, line("axesagg", "date", "date:desc", d1, d2, "0,1,2:0,1,2"))
+	top := c13MakeSet(NewRand(5), []string{"e", "d", "c", "b", "a", "10", "9"})
+	top.values = "5,5,9,1,1,7,7"
+	for _, nm := range []string{"value", "value:asc", "text", "numeric:desc"} {
+		for _, k := range []string{"0", "1", "3", "7", "8", "-1"} {
+			out = append(out, top.dline("topn", nm, k))
+		}
+	}
 	out = append(out, line("axes", "contextual", "date", days, months, "0,1,2,3:0,1,2,3,4"), line("axes", "bla", "contextual", days, months, "0:0"),
 		line("axes", "contextual", "text:x", days, months, "0:0"), line("axes", "value", "numeric", days, nums, "0,1,2,3:4,3,2,1,0"),
 		line("axes", "contextual", "contextual", nil, nil, "."), line("axes", "contextual", "contextual", days, months, ".:."))
